@@ -3,3 +3,4 @@ import Echse.Model.Instant
 import Echse.Spec.Cal
 import Echse.Model.Strpf
 import Echse.Model.Scale
+import Echse.Model.Sort
